@@ -33,11 +33,18 @@ def encode_as_wav(base, code, bk_filename, turbo=False):
             + env.PAUSE
             + encode_data_bits(code, env)
             + (env.PAUSE if turbo else b"")
-            + encode_data_bits(struct.pack("<H", sum(code) % (2 ** 16 - 1)), env)
+            + encode_data_bits(struct.pack("<H", checksum(code)), env)
             + env.EOF
         ),
         env.sample_rate
     )
+
+
+def checksum(data):
+    # 16-bit sum with end-around carry, as the BK-0010 monitor computes it. This equals
+    # sum % 65535 except that a non-zero sum divisible by 65535 gives 0xFFFF, not 0.
+    total = sum(data)
+    return (total - 1) % (2 ** 16 - 1) + 1 if total else 0
 
 
 def encode_data_bits(data, env):
